@@ -580,8 +580,11 @@ class ExcelCompiler:
                     walk_dependents(self.cell_map[addr])
                     if isinstance(self.cell_map[addr], _CellRange):
                         # the cells of an input range are inputs as well
+                        # (a cell of it which nothing has read is not built)
                         for cell_addr in self.cell_map[addr]:
-                            walk_dependents(self.cell_map[cell_addr.address])
+                            if cell_addr.address in self.cell_map:
+                                walk_dependents(
+                                    self.cell_map[cell_addr.address])
                     msg = ''
                 else:
                     msg = 'warning', f'Address {addr} not found in cell_map'
